@@ -20,6 +20,13 @@ specs : KernelCalls.tla  - the interface (src/_cImageD11.pyf): for every exporte
                            the pixel count) x capacity (default / tight / 1) x verbose; Extents = the preconditions of
                            each kernel that f2py does not enforce; WrapperInv (the callers' allocation rule meets
                            compress_duplicates' precondition), OptionInv
+                           Values: FloatIn names the float data arrays of every kernel / caller (pixel values, dark and
+                           flat images, g-vectors, peak positions, value lists); value class fv in {nan, +inf, -inf}
+                           (thorough: + -0.0, denormal) on every second element / on all elements (thorough: + the last)
+                           x five small shapes x every content x every list size up to 4097 x every option value
+                           (ValueInv); WorkArrays names the scratch arguments, which are handed over dirty on every
+                           call (integer scratch = index-like values just outside the array and far outside); the scan
+                           callers carry the history "frame after a frame with more pixels" on non-finite intensities
         ConnPix (+Dset), SparseCP, LocalMax, SparseCoo, SparseOverlaps, Merge3D, ScoreRefine, ScoreAssign
                          - the kernel models, re-run here at their boundary scopes with their InBounds / DsInv /
                            NoPoisonRead / Defined invariants; their emitted cases carry exact expectations (replayed
@@ -43,7 +50,11 @@ binding: every emitted descriptor / case is executed on the real kernels built w
         OpenMP environment run in child processes started under that environment (normal build), each call first on
         one thread, then with what the environment delivers, outputs poisoned, results compared.  Vacuity: every option
         / verbose value of every kernel executed, every caller went through exactly the kernels Calls(w) names, each
-        environment compared at least 10 results.  The sanitizer children (three shares of the descriptors + the model
+        environment compared at least 10 results, every value class written into a float data array of every kernel of
+        FloatIn, FloatIn / WorkArrays name arguments of the built module of the right kind.  Calls on non-finite data are
+        judged for sanitizer reports, poison in promised outputs, integer outputs out of range, exceptions - not against
+        the value references (quick: every descriptor of the sparse local-maximum / smoothing kernels, a seeded (value class,
+        placement) per descriptor group for the others).  The sanitizer children (three shares of the descriptors + the model
         cases) and the normal-build children run side by side.
 verdict: sanitizer report, surviving poison / NaN in a promised output, output differing from model / reference,
         output depending on the number of threads or on the OpenMP environment, or a kernel precondition violated by a
@@ -171,7 +182,7 @@ def run_all_tlc(chk, tier):
             recs = [json.loads(line) for line in res2.printed]
         if src == "kc" and tier == "thorough":
             need = ["PickKernel", "PickShape", "PickBigShape", "PickStripShape", "PickContent", "PickContent2", "PickSize",
-                    "PickEnvSize", "PickSize2", "PickParam", "PickOption", "CheckWF", "PickVerbose", "PickThreads", "PickEnv",
+                    "PickEnvSize", "PickSize2", "PickParam", "PickOption", "CheckWF", "PickVerbose", "PickValueClass", "PickThreads", "PickEnv",
                     "PickHugeShape", "Finish"]
             for a in need:
                 if res.coverage.get(a, (0, 0))[1] == 0:
@@ -263,6 +274,8 @@ def describe(case):
             bits.append("nt=%d" % d["nt"])
         if d.get("env"):
             bits.append("OpenMP environment %d" % d["env"])
+        if d.get("fv", "fin") != "fin":
+            bits.append("float data %s on %s elements" % (d["fv"], d["at"]))
         return " ".join(bits)
     return "%s model case" % case["src"]
 
@@ -284,7 +297,7 @@ class Replayer(object):
         self.sigs = {}          # failure signature -> count; three replay files per signature, the rest counted
         self.lock = threading.RLock()   # several children run side by side (sanitizer build / normal build): bookkeeping is serial
         self.out_extra = {"caller_kernels": {}, "options_run": {}, "guarded_calls": {}, "illformed_callers": 0,
-                          "env_compared": 0, "omp": []}
+                          "env_compared": 0, "omp": [], "fv_run": {}, "skipped_refs": 0, "float_arrays": None}
         self.callers = None
         self.guard_tags = None
         self.scalar_args = None
@@ -414,6 +427,13 @@ class Replayer(object):
             for k, v in out.get("time_s", {}).items():
                 x.setdefault("time_s", {})[k] = round(x.get("time_s", {}).get(k, 0.0) + v, 2)
             x["illformed_callers"] += out.get("illformed_callers", 0)
+            for k, v in out.get("fv_run", {}).items():
+                cur = x["fv_run"].setdefault(k, [0, 0])
+                cur[0] += v[0]
+                cur[1] += v[1]
+            x["skipped_refs"] += out.get("skipped_refs", 0)
+            if flavour == "asan":
+                x["float_arrays"] = out.get("float_arrays") or x["float_arrays"]
             x["env_compared"] += out.get("env_compared", 0)
             if omp:
                 x["omp"].append(dict(out.get("omp", {}), cases=len(cases), compared=out.get("env_compared", 0)))
@@ -633,6 +653,35 @@ def caller_subset(wrap, tier):
     return keep
 
 
+FV_ALL = ("sparse_localmaxlabel", "sparse_smooth", "py:sparse_localmax")
+
+
+def value_subset(fvd, tier):
+    """descriptors with non-finite float data: thorough all; quick every descriptor of the kernels that chase indices held
+    in scratch arrays (sparse local-maximum labelling and its frame caller, smoothing); for the other kernels and callers
+    one seeded (value class, placement) for every (kernel, shape / size, contents, parameter, option) - for the scan
+    callers, which write a file per call, for every (caller, shape, contents) -, and every (kernel, value class) at least
+    once on all elements"""
+    if tier != "quick":
+        return list(fvd)
+    rng = np.random.RandomState(common.seed() + 34)
+    keep = [c for c in fvd if c["d"]["k"] in FV_ALL]
+    rest = [c for c in fvd if c["d"]["k"] not in FV_ALL]
+    scan = ("py:scan_cplabel", "py:scan_lmlabel")
+    keep += _grouped([c for c in rest if c["d"]["k"] not in scan],
+                     lambda d: (d["k"], d["ns"], d["nf"], d["n"], d["m"], d["c1"], d["c2"], d["par"], d["opt"]), lambda g, m: 1, rng)
+    keep += _grouped([c for c in rest if c["d"]["k"] in scan],
+                     lambda d: (d["k"], d["ns"], d["nf"], d["c1"], d["c2"]), lambda g, m: 1, rng)
+    # every (kernel, value class) at least once, on an array long enough for every placement
+    have = set((c["d"]["k"], c["d"]["fv"]) for c in keep if c["d"]["at"] == "all")
+    for c in sorted(fvd, key=lambda c: json.dumps(c["d"], sort_keys=True)):
+        d = c["d"]
+        if (d["k"], d["fv"]) not in have and d["at"] == "all" and (d["n"] >= 1 or d["c1"] == "full"):
+            have.add((d["k"], d["fv"]))
+            keep.append(c)
+    return keep
+
+
 def env_subset(envd, tier):
     """calls made under an OpenMP environment: thorough all; quick the longest lists / largest shapes all, a seeded half
     of the others"""
@@ -737,6 +786,35 @@ def crosscheck_options(chk, iface, rep, env_run):
     chk.notes["illformed_caller_descriptors_skipped"] = x["illformed_callers"]
 
 
+def crosscheck_values(chk, iface, rep):
+    """the value-class dimension is about real float data arguments and was executed"""
+    x = rep.out_extra
+    real = x.get("float_arrays") or {}
+    for k in sorted(set(iface["interface"]) - set(iface["exempt"])):
+        for nm in iface["floatin"].get(k, []):
+            if real.get(k, {}).get(nm.lower()) not in ("f", "d"):
+                raise common.MachineryError("interface drift: KernelCalls!FloatIn names %s of %s, the built module has the array "
+                                            "arguments %s" % (nm, k, real.get(k)))
+        for nm in iface["work"].get(k, []):
+            if nm.lower() not in real.get(k, {}):
+                raise common.MachineryError("interface drift: KernelCalls!WorkArrays names %s of %s, the built module has the array "
+                                            "arguments %s" % (nm, k, real.get(k)))
+    ran = {}
+    for key, (n, inj) in x["fv_run"].items():
+        k, fv, at = key.split("|")
+        ran.setdefault(k, {}).setdefault(fv, 0)
+        ran[k][fv] += inj
+    for k in sorted(iface["floatin"]):
+        if not iface["floatin"][k]:
+            continue
+        want = set(iface["fvs"]) - ({"nan"} if k in ("cluster1d", "localmaxlabel") else set())
+        miss = sorted(fv for fv in want if not ran.get(k, {}).get(fv))
+        if miss:
+            raise common.MachineryError("vacuity: the value class(es) %s never reached a float data array of %s" % (miss, k))
+    chk.notes["value_classes_executed"] = ran
+    chk.notes["value_references_skipped_on_nonfinite_data"] = x.get("skipped_refs", 0)
+
+
 # ------------------------------------------------------------------------------------------------
 def crosscheck_interface(chk, iface, rep, desc):
     spec_k = set(iface["interface"]) - set(iface["exempt"])
@@ -774,13 +852,19 @@ def run(tier, replay=None):
                 "_matrix / overlaps with labels per frame, at / one above the capacity, far above the pixel count; frame "
                 "functions; SparseScan labelling; labelimage x verbose) under the sanitizers with every kernel call guarded "
                 "by the preconditions of KernelCalls!Extents; large calls of every sized kernel in processes started under "
-                "three OpenMP environments whose team differs from omp_get_max_threads(), compared with one thread. "
+                "three OpenMP environments whose team differs from omp_get_max_threads(), compared with one thread; "
+                "non-finite float data (NaN, +inf, -inf; thorough -0.0, denormal; on every second / all elements) in every "
+                "float data array of every kernel and frame caller x small shapes x contents x list sizes x options under the "
+                "sanitizers, scratch arguments dirty (index-like) on every call. "
                 "non-trivial = non-empty content / non-zero size; distinct = distinct (build, descriptor)")
     chk.assumptions = [
         "memory safety is a property of the binary: the specification supplies the call lattice and (for the modelled "
         "kernels) index-bound proofs on the models; the verdict per executed call comes from the sanitizer build",
         "the sanitizers observe only executed calls; gcc's -fsanitize=undefined does not include float-cast-overflow",
         "arrays are C-contiguous and of the exact dtype of the signature (otherwise f2py works on a copy)",
+        "calls on non-finite data are judged for memory safety, definedness (no poison; NaN allowed in float outputs), "
+        "integer outputs in range and exceptions, not for values; 3 x 3 matrices / geometry parameters / accumulated "
+        "moments stay finite",
         "calls outside the documented preconditions (one-column images for connectedpixels / localmaxlabel, one-row "
         "masks for clean_mask, empty images, zero histogram bins, unsorted coo lists, labels above npk) are outside the "
         "quantifier; zero-length lists are rejected by the f2py wrappers and recorded as such",
@@ -800,9 +884,16 @@ def run(tier, replay=None):
     thr = thread_order([c for c in kern if c["d"].get("nt", 0) > 0])
     envd = [c for c in kern if c["d"].get("env", 0) > 0]
     verb = [c for c in kern if c["d"].get("vb", 0) > 0]
+    for c in desc:                  # the arguments the driver writes the value class into / hands over dirty
+        c["floatin"] = sorted(x.lower() for x in iface["floatin"].get(c["d"]["k"], []))
+        c["work"] = sorted(x.lower() for x in iface["work"].get(c["d"]["k"], []))
+    fvd = [c for c in desc if c["d"].get("fv", "fin") != "fin"]
+    wrap = [c for c in wrap if c["d"].get("fv", "fin") == "fin"]
+    kern = [c for c in kern if c["d"].get("fv", "fin") == "fin"]
     plain = [c for c in kern if not (c["d"].get("nt", 0) or c["d"].get("env", 0) or c["d"].get("vb", 0))]
     verb_run, wrap_run, env_run = option_subset(verb, tier), caller_subset(wrap, tier), env_subset(envd, tier)
-    asan = plain + verb_run + wrap_run + thread_asan_subset(thr, tier)
+    fv_run = value_subset(fvd, tier)
+    asan = plain + verb_run + wrap_run + thread_asan_subset(thr, tier) + fv_run
     nchunk = 3
     order = sorted(range(len(asan)), key=lambda i: (i % nchunk, i))             # round robin: equal shares of every family
     chunks = [[asan[i] for i in order if i % nchunk == q] for q in range(nchunk)]
@@ -835,11 +926,13 @@ def run(tier, replay=None):
     chk.notes["phase_s"] = times
     chk.notes["thread_count_descriptors"] = len(thr)
     chk.notes["descriptors"] = {"plain": len(plain), "thread_count": len(thr), "verbose": [len(verb), len(verb_run)],
-                                "openmp_environment": [len(envd), len(env_run)], "callers": [len(wrap), len(wrap_run)]}
+                                "openmp_environment": [len(envd), len(env_run)], "callers": [len(wrap), len(wrap_run)],
+                                "value_classes": [len(fvd), len(fv_run)]}
     if not chk.violations:          # (with violations the picture of the child's bookkeeping may be incomplete)
         crosscheck_threads(chk, iface, thr, rep)
         crosscheck_interface(chk, iface, rep, kern)
         crosscheck_options(chk, iface, rep, env_run)
+        crosscheck_values(chk, iface, rep)
     chk.notes.update(rep.stats)
     chk.notes["thread_counts"] = THREADS
     chk.notes["thread_counts_of_the_lattice"] = sorted(iface.get("nts", []))
